@@ -22,6 +22,7 @@ class Plan:
         self.gen_transitions = 0
         self.notes = {}
         self.maxels = {}
+        self.external = {}    # theory -> (sig, stages, module path, driver binary) for programs outside the corpus
 
     def add(self, theory, steps, fam=-1):
         self.by_theory.setdefault(theory, []).append({"steps": steps, "fam": fam})
@@ -29,6 +30,25 @@ class Plan:
     def add_gen(self, r):
         self.gen_states += r["distinct"]
         self.gen_transitions += r["generated"]
+
+
+QUICK_THEORIES = {
+    "C01": ["poset", "semilattice", "pend", "diag", "misc", "enumt", "inherit", "branches"],
+    "C02": ["poset", "semilattice", "pend", "diag", "misc", "enumt", "inherit"],
+    "C03": ["poset", "pend", "diag", "misc", "inherit", "trans_refl"],
+    "C04": ["poset", "semilattice", "diag", "misc", "enumt", "inherit"],
+    "C05": ["poset", "semilattice", "diag", "misc", "enumt", "matches"],
+    "C06": ["poset", "diag", "trans_refl", "branches", "logic"],
+    "C07": ["poset", "semilattice", "pend", "misc", "inherit"],
+    "C15": ["enumt", "matches", "matches_rel"],
+    "C17": ["inherit", "subset_rules"],
+}
+
+
+def select(ths, prop, tier):
+    """the corpus theories a check uses: a fixed subset in the quick tier, all of them in thorough"""
+    names = sorted(ths) if tier == "thorough" or prop not in QUICK_THEORIES else [n for n in QUICK_THEORIES[prop] if n in ths]
+    return [(n, ths[n]) for n in names]
 
 
 def module_path(theory):
@@ -106,7 +126,11 @@ def run(prop, tier, replay, make_plan, level="model_checking", panic_props=("C01
     stats_all = {}
     samples = []
     for theory, hs in sorted(plan.by_theory.items()):
-        sig, stages = ths[theory]
+        if theory in plan.external:
+            sig, stages, mpath, binary = plan.external[theory]
+        else:
+            sig, stages = ths[theory]
+            mpath, binary = module_path(theory), "model-driver"
         d = vlib.workdir(f"{prop.lower()}-{theory}")
         hpath = os.path.join(d, "histories.ndjson")
         tpath = os.path.join(d, "trace.ndjson")
@@ -114,10 +138,10 @@ def run(prop, tier, replay, make_plan, level="model_checking", panic_props=("C01
         for i, h in enumerate(hs):
             rows.append({"id": i + 1, "theory": theory, "fam": h["fam"], "steps": h["steps"]})
         vlib.write_ndjson(hpath, rows)
-        r = vlib.run([os.path.join(vlib.BIN, "model-driver"), hpath, tpath], timeout=1800)
+        r = vlib.run([os.path.join(vlib.BIN, binary), hpath, tpath], timeout=1800)
         if r.returncode != 0:
-            raise vlib.ToolError(f"model-driver failed on {theory}: {r.stderr[-2000:]}")
-        res = mcgen.validate_api_trace(theory, sig, stages, module_path(theory), tpath, f"{prop.lower()}-{theory}-mon",
+            raise vlib.ToolError(f"{binary} failed on {theory}: {r.stderr[-2000:]}")
+        res = mcgen.validate_api_trace(theory, sig, stages, mpath, tpath, f"{prop.lower()}-{theory}-mon",
                                        maxels=plan.maxels.get(theory, 9))
         vlib.log(f"[{prop}] {theory}: {len(rows)} histories, {res['events']} events, monitor {res['_wall']:.1f}s, "
                  f"closes {res['stats']['closes']} (inconclusive {res['stats']['inconclusive']})")
@@ -165,10 +189,10 @@ def run(prop, tier, replay, make_plan, level="model_checking", panic_props=("C01
                                 "steps": counterfactual_history(kf["classifier"]["counterfactual"], sig, hist["steps"])})
             d2 = vlib.workdir(f"{prop.lower()}-{theory}-cf")
             vlib.write_ndjson(os.path.join(d2, "histories.ndjson"), cf_rows)
-            r2 = vlib.run([os.path.join(vlib.BIN, "model-driver"), os.path.join(d2, "histories.ndjson"), os.path.join(d2, "trace.ndjson")], timeout=1800)
+            r2 = vlib.run([os.path.join(vlib.BIN, binary), os.path.join(d2, "histories.ndjson"), os.path.join(d2, "trace.ndjson")], timeout=1800)
             if r2.returncode != 0:
                 raise vlib.ToolError(f"model-driver failed on {theory} (counterfactual): {r2.stderr[-2000:]}")
-            res2 = mcgen.validate_api_trace(theory, sig, stages, module_path(theory), os.path.join(d2, "trace.ndjson"),
+            res2 = mcgen.validate_api_trace(theory, sig, stages, mpath, os.path.join(d2, "trace.ndjson"),
                                             f"{prop.lower()}-{theory}-cfmon", maxels=plan.maxels.get(theory, 9))
             states += res2["_states"]
             transitions += res2["_generated"]
@@ -204,3 +228,34 @@ def run(prop, tier, replay, make_plan, level="model_checking", panic_props=("C01
     v.assumptions = ["TLC, Json/IOUtils community modules", "reference stages computed by tools/eql.py (independent front end)",
                      "model-driver records faithfully; private index fields read by an impl included next to the generated module"]
     return v.finish()
+
+
+def add_generated_programs(plan, rnd, nprogs, nhist, prop):
+    """well-formed programs enumerated by TLC from Lang.tla, compiled by the compiler under test and
+    driven with seeded random histories; their reference stages come from tools/eql.py"""
+    import c10
+    import histories
+    gen = vlib.tlc("MCLang", name=f"{prop.lower()}-lang", workers=8, timeout=3000)
+    plan.add_gen(gen)
+    accepted = []
+    for p in gen["prints"].get("PROG", []):
+        if not p["errs"]:
+            prog = p["prog"]
+            accepted.append([prog[k] for k in sorted(prog, key=int)] if isinstance(prog, dict) else prog)
+    # programs with at least one `then` statement are the interesting ones
+    accepted = [a for a in accepted if any(st["k"] == "then" for st in a)]
+    chosen = rnd.sample(accepted, min(nprogs * 2, len(accepted)))
+    programs = {}
+    for i, prog in enumerate(chosen):
+        name = "lp" + "".join(chr(ord("a") + (i // 26 ** k) % 26) for k in (2, 1, 0))
+        programs[name] = c10.render(prog)
+    done, skipped = theories.prepare_generated(dict(list(programs.items())[:nprogs]))
+    for name, (sig, stages) in done.items():
+        mpath = os.path.join(theories.GENP_OUT, name + ".eql.rs")
+        plan.external[name] = (sig, stages, mpath, "gen-driver")
+        api = histories.api_of(sig, mpath)
+        for _ in range(nhist):
+            plan.add(name, histories.random_history(sig, api, rnd, rnd.randint(3, 10), 2, enum_prob=0.15))
+        plan.maxels[name] = 7
+    plan.notes["generated_programs"] = {"compiled": len(done), "skipped": skipped,
+                                        "sample": programs[next(iter(done))][len(c10.PRE):] if done else ""}
